@@ -61,8 +61,16 @@ def rand_action(r):
     from xmldiff import actions as A
 
     p = lambda: r.choice(PATHS)  # noqa
-    s = lambda: r.choice(CRIT)  # noqa
-    sv = lambda: r.choice([c for c in CRIT if c is not None])  # noqa
+    def sv():
+        # one critical string, or (40 %) a composition of critical atoms: the field splitter's quote / backslash / comma states
+        # only show in combinations such as backslash-quote followed by a comma
+        if r.random() < 0.6:
+            return r.choice([c for c in CRIT if c is not None])
+        return "".join(r.choice(["\\", '"', ",", ", ", "a", " ", "]", "[", "\\\"", "\n", "\U0001F600"]) for _ in range(r.randint(2, 6)))
+
+    def s():
+        return None if r.random() < 0.05 else sv()
+
     k = r.randrange(13)
     if k == 0:
         return A.DeleteNode(p())
